@@ -1,12 +1,23 @@
 (* C05 -- Datagram duplicates never re-execute a handler (MID de-duplication).
-   Statements only; proofs in Dedup/Proofs.v.  The model (Dedup/Model.v) is the
-   request path of udp/client.Conn; one [step] is one critical section of the
-   per-message-ID mutex, so quantifying over all histories also quantifies over
-   all orders in which concurrently processed copies enter that section. *)
+   Statements only; proofs in Dedup/Proofs.v (sequential histories) and Dedup/Conc.v (threads).
+   The model (Dedup/Model.v) is the request path of udp/client.Conn; one [step] is the processing of one
+   received copy.  Part 1 quantifies over all sequential histories; part 2 (Dedup/Conc.v) splits a step
+   into its atomic accesses to the shared state, runs one thread per copy under every schedule
+   (Base/Interleave.v) and proves that the per-message-ID lock makes every execution equivalent to a
+   sequential history -- the one in lock-acquisition order. *)
 From Coq Require Import ZArith List Bool.
-From GoCoap Require Import Base.Bytes NoResp.Model Dedup.Model Dedup.Proofs.
+From GoCoap Require Import Base.Bytes Base.Interleave NoResp.Model Gen.DedupConsts Dedup.Model Dedup.Proofs Dedup.Conc.
+From GoCoap Require Dedup.Spec.
 Import ListNotations.
 Open Scope Z_scope.
+
+(* The lifetime of a cached reply is generated from the source (udp/client.ExchangeLifetime, nanoseconds,
+   Gen/DedupConsts.v); it is the EXCHANGE_LIFETIME of RFC 7252 (247 s) that the specification uses. *)
+Theorem C05_lifetime_is_rfc : LIFETIME = Spec.SPEC_LIFETIME /\ ExchangeLifetime = Spec.SPEC_LIFETIME * 1000000.
+Proof. exact lifetime_is_rfc. Qed.
+Print Assumptions C05_lifetime_is_rfc.
+
+(* ================= part 1: all sequential histories ================= *)
 
 (* A first copy (handler ran) of a confirmable request, or of a non-confirmable one that got a
    reply, followed by ANY history lasting at most the exchange lifetime, then another copy with the
@@ -47,9 +58,187 @@ Theorem C05_own_mid_kept_away : forall mid own, 0 <= own ->
 Proof. exact own_mid_kept_away. Qed.
 Print Assumptions C05_own_mid_kept_away.
 
+(* The same with the cacheability condition stated on the handler: whatever the handler left in the response
+   writer -- a response, a replaced message (w.SetMessage), a Reset, an Empty code -- a confirmable request, and a
+   non-confirmable one that got a reply, is handled once per lifetime. *)
+Theorem C05_once_any_reply : forall s typ mid tok code ro b s1 o1 evs typ2 tok2 code2 ro2 b2,
+  step s (Req typ mid tok code ro b) = (s1, o1) ->
+  is_cacheable_typ typ = true -> o_called o1 = true -> (typ = CON \/ handler_result tok ro b <> None) ->
+  ages_ok evs -> total_age evs <= LIFETIME ->
+  is_cacheable_typ typ2 = true ->
+  let o2 := snd (step (final s1 evs) (Req typ2 mid tok2 code2 ro2 b2)) in
+  o_called o2 = false /\
+  exists r1 r2, o_out o1 = [r1] /\ o_out o2 = [r2] /\ same_content r2 r1 /\ w_mid r2 = mid /\
+                w_typ r2 = (if typ2 =? CON then ACK else NON).
+Proof. exact dedup_once_replied. Qed.
+Print Assumptions C05_once_any_reply.
+
+(* Separate response: the handler of a confirmable request returns without setting a response.  The request gets
+   a bare acknowledgement, and so does every copy for the lifetime, without reaching the handler -- whatever
+   happens in between, in particular the application sending the response itself ([Send]). *)
+Theorem C05_separate_response : forall s mid tok code ro b s1 o1 evs tok2 code2 ro2 b2,
+  step s (Req CON mid tok code ro b) = (s1, o1) -> o_called o1 = true -> handler_result tok ro b = None ->
+  ages_ok evs -> total_age evs <= LIFETIME ->
+  let o2 := snd (step (final s1 evs) (Req CON mid tok2 code2 ro2 b2)) in
+  o_out o1 = [bare_ack mid] /\ o_called o2 = false /\ o_out o2 = [bare_ack mid].
+Proof. exact separate_response. Qed.
+Print Assumptions C05_separate_response.
+
+(* What the application sends on its own is an emission only: no handler, the response cache is untouched. *)
+Theorem C05_send_is_emission : forall s typ tok code opts pay,
+  cache (fst (step s (Send typ tok code opts pay))) = cache s /\
+  o_called (snd (step s (Send typ tok code opts pay))) = false /\
+  exists r, o_out (snd (step s (Send typ tok code opts pay))) = [r] /\
+            w_typ r = typ /\ w_code r = code /\ w_tok r = tok /\ w_opts r = opts /\ w_pay r = pay.
+Proof. exact send_is_emission. Qed.
+Print Assumptions C05_send_is_emission.
+
+(* A message withheld by the request monitor: no handler, nothing written, nothing cached. *)
+Theorem C05_drop_unseen : forall s typ mid,
+  cache (fst (step s (Drop typ mid))) = cache s /\ snd (step s (Drop typ mid)) = {| o_called := false; o_out := [] |}.
+Proof. exact drop_unseen. Qed.
+Print Assumptions C05_drop_unseen.
+
+(* A ping is answered with a Reset carrying its message ID; the handler never sees it, nothing is cached. *)
+Theorem C05_ping_unseen : forall s mid,
+  cache (fst (step s (Ping mid))) = cache s /\ o_called (snd (step s (Ping mid))) = false /\
+  o_out (snd (step s (Ping mid))) = [{| w_typ := RST; w_code := 0; w_mid := mid; w_tok := []; w_opts := []; w_pay := [] |}].
+Proof. exact ping_unseen. Qed.
+Print Assumptions C05_ping_unseen.
+
+(* A handler that replaces the response message: the reply is that message, with its own token. *)
+Theorem C05_set_message_reply : forall s typ mid tok code ro rc tok' o p,
+  req_lookup typ mid (cache s) = None ->
+  let ob := snd (step s (Req typ mid tok code ro (BMsg rc tok' o p))) in
+  o_called ob = true /\
+  exists r, o_out ob = [r] /\ w_code r = rc /\ w_tok r = tok' /\ w_opts r = o /\ w_pay r = p /\
+            (typ = CON -> w_typ r = ACK /\ w_mid r = mid).
+Proof. exact set_message_reply. Qed.
+Print Assumptions C05_set_message_reply.
+
+(* ================= part 2: threads, all schedules ================= *)
+(* One thread per received copy.  Its program (Dedup.Conc.act) is the sequence of atomic accesses of
+   udp/client.Conn to the shared state: own-ID check; Lock(mid) -- not enabled while the ID is held;
+   cache lookup; handler + own-ID draw; cache store; Unlock; own-ID draw + write.  [cexec sched (cinit s0 progs)]
+   runs the programs [progs] from the state s0 under the schedule [sched] (a list of thread numbers). *)
+
+(* The split is the model: a thread that runs alone performs exactly one [step], own counter included. *)
+Theorem C05_thread_alone_is_step : forall typ mid tok code ro b s,
+  ~ In mid (held s) ->
+  let o := Req typ mid tok code ro b in
+  run_actions 7 o (init_loc o) s =
+  Some ({| g := fst (step (g s) o); held := held s; acq := o :: acq s |}, (snd (step (g s) o), length (acq s))).
+Proof. exact solo. Qed.
+Print Assumptions C05_thread_alone_is_step.
+
+(* (a) Every interleaved execution is equivalent to the sequential history A of the critical sections in
+   lock-acquisition order: every call that has returned, with position p in that order, observed what the
+   sequential run of A observes at p; the cache entry of every message ID that is not locked is the one the
+   sequential run of A leaves; at most one thread is inside the section of a message ID.
+   Equivalent = up to the own message-ID counter ([oeq] erases the ID of the reply to a handled request that is
+   not confirmable, [kv] compares the code, token, options, payload and validity of a cache entry). *)
+Theorem C05_sections_serialise : forall s0 progs sched,
+  let c := cexec sched (cinit s0 progs) in
+  let A := order c in
+  (forall t n typ mid tok code ro b ob p, In (ERes t n (Req typ mid tok code ro b) (ob, p)) (rhist c) ->
+     nth_error A p = Some (Req typ mid tok code ro b) /\
+     exists ob', nth_error (snd (run s0 A)) p = Some ob' /\ oeq typ ob ob') /\
+  (forall m, ~ In m (held (shared c)) -> kv (cache (g (shared c))) m = kv (cache (fst (run s0 A))) m) /\
+  (forall t1 t2 th1 th2 m, nth_error (threads c) t1 = Some th1 -> nth_error (threads c) t2 = Some th2 ->
+     insec (cur th1) m -> insec (cur th2) m -> t1 = t2).
+Proof. exact sections_serialise. Qed.
+Print Assumptions C05_sections_serialise.
+
+(* ... and distinct calls have distinct positions in that order. *)
+Theorem C05_positions_distinct : forall s0 progs sched t1 n1 t2 n2 typ1 mid1 tok1 code1 ro1 b1 typ2 mid2 tok2 code2 ro2 b2 ob1 ob2 p,
+  let c := cexec sched (cinit s0 progs) in
+  forall X Y, rhist c = X ++ ERes t1 n1 (Req typ1 mid1 tok1 code1 ro1 b1) (ob1, p) :: Y ->
+  ~ In (ERes t2 n2 (Req typ2 mid2 tok2 code2 ro2 b2) (ob2, p)) (X ++ Y).
+Proof. exact positions_distinct. Qed.
+Print Assumptions C05_positions_distinct.
+
+(* (b) Copies with DIFFERENT message IDs commute on the response cache: in either order every entry ends up with the
+   same content and validity, and each copy observes the same in either position -- up to the own counter, the one
+   location they share ... *)
+Theorem C05_commute : forall s typ1 mid1 tok1 code1 ro1 b1 typ2 mid2 tok2 code2 ro2 b2,
+  mid1 <> mid2 ->
+  let e1 := Req typ1 mid1 tok1 code1 ro1 b1 in
+  let e2 := Req typ2 mid2 tok2 code2 ro2 b2 in
+  let s1 := fst (step s e1) in let s12 := fst (step s1 e2) in
+  let s2 := fst (step s e2) in let s21 := fst (step s2 e1) in
+  (forall k, kv (cache s12) k = kv (cache s21) k) /\
+  oeq typ1 (snd (step s e1)) (snd (step s2 e1)) /\
+  oeq typ2 (snd (step s1 e2)) (snd (step s e2)).
+Proof. exact commute. Qed.
+Print Assumptions C05_commute.
+
+(* ... which itself does NOT commute (the own-ID check of a confirmable request depends on how far the other
+   copy has advanced the counter): this is exactly what is projected out. *)
+Theorem C05_commute_own_counter_refuted :
+  exists s e1 e2, other 5 e1 = true /\ other 16383 e2 = true /\
+    own (fst (step (fst (step s e1)) e2)) <> own (fst (step (fst (step s e2)) e1)).
+Proof. exact commute_own_counter_refuted. Qed.
+Print Assumptions C05_commute_own_counter_refuted.
+
+(* (c) Hence, for ANY number of concurrently processed copies of one request e (a confirmable one, or one for which
+   the handler produces a reply) with a fresh message ID m, together with any number of copies of requests with other
+   message IDs, under EVERY schedule: there is one position p0 of the lock order -- the first copy to take the lock --
+   such that a copy that has returned ran the handler iff it is the one at p0; every copy got one datagram with the
+   same code, token, options and payload; for every copy but the one at p0 it is the stored reply, re-addressed. *)
+Theorem C05_once_concurrent : forall typ m tok code ro b,
+  is_cacheable_typ typ = true -> (typ = CON \/ handler_result tok ro b <> None) ->
+  forall s0 progs sched,
+  cache_load (cache s0) m = None ->
+  (forall prog, In prog progs -> Forall (fun x => x = Req typ m tok code ro b \/ other m x = true) prog) ->
+  let c := cexec sched (cinit s0 progs) in
+  exists p0 r1, forall t n ob p, In (ERes t n (Req typ m tok code ro b) (ob, p)) (rhist c) ->
+    (p = p0 -> o_called ob = true /\ exists r, o_out ob = [r] /\ same_content r r1) /\
+    (p <> p0 -> o_called ob = false /\ exists r, o_out ob = [r] /\ same_content r r1 /\ w_mid r = m /\
+                w_typ r = (if typ =? CON then ACK else NON)).
+Proof. exact once_concurrent. Qed.
+Print Assumptions C05_once_concurrent.
+
+(* ... in particular, of two copies that have returned at most one ran the handler. *)
+Theorem C05_handler_once : forall typ m tok code ro b,
+  is_cacheable_typ typ = true -> (typ = CON \/ handler_result tok ro b <> None) ->
+  forall s0 progs sched,
+  cache_load (cache s0) m = None ->
+  (forall prog, In prog progs -> Forall (fun x => x = Req typ m tok code ro b \/ other m x = true) prog) ->
+  let c := cexec sched (cinit s0 progs) in
+  forall X Y t1 n1 ob1 p1 t2 n2 ob2 p2,
+    rhist c = X ++ ERes t1 n1 (Req typ m tok code ro b) (ob1, p1) :: Y ->
+    In (ERes t2 n2 (Req typ m tok code ro b) (ob2, p2)) (X ++ Y) ->
+    o_called ob1 = true -> o_called ob2 = false.
+Proof. exact handler_once. Qed.
+Print Assumptions C05_handler_once.
+
 (* non-vacuity: a NON request answered 2.05, the same request again 246 s later (not re-executed,
    same reply, retargeted), and again after a further 2 s (fresh) *)
 Example C05_instance :
   let r := Req NON 77 [170; 187] 1 [] (BResp 69 [] [1; 2; 3]) in
   map o_called (snd (run (init 4096) [r; Age 246000; r; Age 2000; r])) = [true; false; false; false; true].
+Proof. vm_compute. reflexivity. Qed.
+
+(* non-vacuity of part 1 on the new paths: a confirmable request with a separate response (bare ACK, the
+   application sends the response later), a Reset reply, a replaced message with the Empty code -- each followed
+   by a copy that is not handled again *)
+Example C05_instance_paths :
+  map o_called (snd (run (init 4096) [Req CON 7 [1] 1 [] BNone; Send NON [1] 69 [] [9]; Req CON 7 [1] 1 [] BNone;
+                                       Req NON 8 [2] 1 [] BRst; Req NON 8 [2] 1 [] BRst;
+                                       Req CON 9 [3] 1 [] (BMsg 0 [4] [] []); Drop CON 9; Ping 9; Req CON 9 [3] 1 [] (BMsg 0 [4] [] [])]))
+  = [true; false; false; true; false; true; false; false; false].
+Proof. vm_compute. reflexivity. Qed.
+
+(* non-vacuity of part 2: three copies of a NON request (ID 77) and two copies of a CON request (ID 78) as five
+   threads; the schedule lets thread 0 run up to the handler, then threads 1-4 up to their Lock (1, 2 blocked
+   behind thread 0; 3 takes the lock of 78, 4 blocked), then everything to the end.  Five calls return; exactly
+   the first holder of each lock ran the handler *)
+Example C05_instance_threads :
+  let a := Req NON 77 [170] 1 [] (BResp 69 [] [1; 2]) in
+  let b := Req CON 78 [187] 1 [] BNone in
+  let sched := [0; 0; 0; 0; 0; 1; 1; 1; 1; 2; 2; 2; 3; 3; 3; 3; 4; 4; 4; 4]%nat ++ concat (repeat [0; 1; 2; 3; 4]%nat 12) in
+  let c := cexec sched (cinit (init 4096) [[a]; [a]; [a]; [b]; [b]]) in
+  map (fun e => match e with ERes t _ _ (ob, p) => Some (t, o_called ob, p) | _ => None end)
+      (filter (fun e => match e with ERes _ _ _ _ => true | _ => false end) (rhist c))
+  = [Some (2, false, 4); Some (4, false, 3); Some (1, false, 2); Some (3, true, 1); Some (0, true, 0)]%nat.
 Proof. vm_compute. reflexivity. Qed.
